@@ -116,7 +116,7 @@ func (n *Net) Dial() net.Conn {
 		return nil
 	default:
 	}
-	a, b := &stream{wake: make(chan struct{}, 1)}, &stream{wake: make(chan struct{}, 1)}
+	a, b := &stream{wake: make(chan struct{}, 1)}, &stream{wake: make(chan struct{}, 1), limit: SockBuf, room: make(chan struct{}, 1)}
 	srv := &bconn{r: a, w: b, side: "srv"}
 	cli := &bconn{r: b, w: a, side: "cli"}
 	select {
@@ -141,14 +141,22 @@ func (n *Net) Listening() bool {
 	return false
 }
 
-// stream is one direction of a simulated TCP connection: an unbounded buffer
-// (a kernel socket buffer absorbs fzf's small responses; writes do not block).
+// stream is one direction of a simulated TCP connection: a buffer that is
+// unbounded by default (a kernel socket buffer absorbs fzf's small responses;
+// writes do not block) or holds at most limit bytes (SockBuf: a peer that does
+// not read makes the writer wait, like send and receive buffers that are full).
 type stream struct {
 	mu     sync.Mutex
 	buf    []byte
 	closed bool
 	wake   chan struct{}
+	limit  int
+	room   chan struct{}
 }
+
+// SockBuf, if positive, bounds what the server side can have written and unread on a connection
+// dialed from now on.
+var SockBuf int
 
 func (s *stream) signal() {
 	select {
@@ -158,10 +166,11 @@ func (s *stream) signal() {
 }
 
 type bconn struct {
-	r, w     *stream
-	side     string
-	mu       sync.Mutex
-	deadline time.Time
+	r, w      *stream
+	side      string
+	mu        sync.Mutex
+	deadline  time.Time
+	wdeadline time.Time
 }
 
 type timeoutError struct{}
@@ -178,6 +187,12 @@ func (c *bconn) Read(b []byte) (int, error) {
 			n := copy(b, c.r.buf)
 			c.r.buf = c.r.buf[n:]
 			c.r.mu.Unlock()
+			if c.r.room != nil {
+				select {
+				case c.r.room <- struct{}{}:
+				default:
+				}
+			}
 			return n, nil
 		}
 		if c.r.closed {
@@ -209,15 +224,51 @@ func (c *bconn) Read(b []byte) (int, error) {
 
 func (c *bconn) Write(b []byte) (int, error) {
 	zsim.Yield("conn.write." + c.side)
-	c.w.mu.Lock()
-	if c.w.closed {
+	written := 0
+	for {
+		c.w.mu.Lock()
+		if c.w.closed {
+			c.w.mu.Unlock()
+			return written, errors.New("write: broken pipe")
+		}
+		n := len(b) - written
+		if c.w.limit > 0 {
+			if free := c.w.limit - len(c.w.buf); free < n {
+				n = free
+			}
+		}
+		if n > 0 {
+			c.w.buf = append(c.w.buf, b[written:written+n]...)
+			written += n
+		}
 		c.w.mu.Unlock()
-		return 0, errors.New("write: broken pipe")
+		if n > 0 {
+			c.w.signal()
+		}
+		if written == len(b) {
+			return written, nil
+		}
+		// the peer's buffers are full: wait until it reads (or the write deadline passes)
+		c.mu.Lock()
+		dl := c.wdeadline
+		c.mu.Unlock()
+		if dl.IsZero() {
+			<-c.w.room
+		} else {
+			d := time.Until(dl)
+			if d <= 0 {
+				return written, timeoutError{}
+			}
+			t := time.NewTimer(d)
+			select {
+			case <-c.w.room:
+				t.Stop()
+			case <-t.C:
+				return written, timeoutError{}
+			}
+		}
+		zsim.Yield("conn.write.wake." + c.side)
 	}
-	c.w.buf = append(c.w.buf, b...)
-	c.w.mu.Unlock()
-	c.w.signal()
-	return len(b), nil
 }
 
 func (c *bconn) Close() error {
@@ -227,6 +278,12 @@ func (c *bconn) Close() error {
 		s.closed = true
 		s.mu.Unlock()
 		s.signal()
+		if s.room != nil {
+			select {
+			case s.room <- struct{}{}:
+			default:
+			}
+		}
 	}
 	return nil
 }
@@ -234,6 +291,7 @@ func (c *bconn) Close() error {
 func (c *bconn) LocalAddr() net.Addr  { return addr{"127.0.0.1:1"} }
 func (c *bconn) RemoteAddr() net.Addr { return addr{"127.0.0.1:2"} }
 func (c *bconn) SetDeadline(t time.Time) error {
+	c.SetWriteDeadline(t)
 	return c.SetReadDeadline(t)
 }
 func (c *bconn) SetReadDeadline(t time.Time) error {
@@ -242,4 +300,9 @@ func (c *bconn) SetReadDeadline(t time.Time) error {
 	c.mu.Unlock()
 	return nil
 }
-func (c *bconn) SetWriteDeadline(t time.Time) error { return nil }
+func (c *bconn) SetWriteDeadline(t time.Time) error {
+	c.mu.Lock()
+	c.wdeadline = t
+	c.mu.Unlock()
+	return nil
+}
